@@ -98,8 +98,10 @@ func init() {
 			fr.m.tags = append(fr.m.tags, knownTag{id: args[0].(string), cond: args[1].(*Term)})
 			return nil
 		},
-		"verifOwnPanics": func(fr *frame, args []value) value { fr.m.ownPanics = true; return nil },
-		"verifMapOrder":  func(fr *frame, args []value) value { fr.m.mapOrder = true; return nil },
+		"verifOwnPanics":    func(fr *frame, args []value) value { fr.m.ownPanics = true; return nil },
+		"verifOwnDeadlocks": func(fr *frame, args []value) value { fr.m.ownDeadlocks = true; return nil },
+		"verifNoMerge":      func(fr *frame, args []value) value { fr.m.noMerge = true; return nil },
+		"verifMapOrder":     func(fr *frame, args []value) value { fr.m.mapOrder = true; return nil },
 		"verifSchedule": func(fr *frame, args []value) value {
 			fr.m.sched.mode = int(fr.m.asInt(args[0], "schedule mode"))
 			fr.m.sched.bound = int(fr.m.asInt(args[1], "schedule bound"))
@@ -126,8 +128,8 @@ func init() {
 		"verifTime": func(fr *frame, args []value) value {
 			return timeVal{fr.m.input(args[0].(string), 64)}
 		},
-		"verifTimeOf": func(fr *frame, args []value) value { return timeVal{args[0].(*Term)} },
-		"verifTimeNs": func(fr *frame, args []value) value { return args[0].(timeVal).ns },
+		"verifTimeOf":   func(fr *frame, args []value) value { return timeVal{args[0].(*Term)} },
+		"verifTimeNs":   func(fr *frame, args []value) value { return args[0].(timeVal).ns },
 		"verifRegister": noop,
 		"verifRecord":   noop,
 		"verifHexModel": func(fr *frame, args []value) value { fr.m.hexModel = true; return nil },
